@@ -17,6 +17,15 @@ VERIF = os.path.dirname(os.path.dirname(os.path.abspath(__file__)))
 REPO = os.environ.get("VERIF_REPO", "/repo")
 SRC = os.path.join(REPO, "src")
 PLAIN_PY = "/venv/bin/python"  # the repository's own interpreter: replays run here
+# Development aid (tools/try_seeded_wt.sh): VERIF_REPO=<scratch worktree> points every import at that tree's src/ instead of the
+# editable install of /repo, and VERIF_EVIDENCE=<dir> keeps such a run's evidence and replays out of /verif/evidence.
+# The registered commands never set either.
+ALT_REPO = REPO != "/repo"
+EVIDENCE_DIR = os.environ.get("VERIF_EVIDENCE") or os.path.join(VERIF, "evidence")
+
+
+def plain_pythonpath() -> str:
+    return SRC if ALT_REPO else ""
 VENV_PY = os.path.join(VERIF, ".venv", "bin", "python")
 
 PROVED = "PROVED-IN-BOUND"
@@ -55,6 +64,8 @@ def child_env(extra: Optional[Dict[str, str]] = None, hashseed: Optional[str] = 
     e.pop("PYTHONDONTWRITEBYTECODE", None)
     e["PYTHONPYCACHEPREFIX"] = os.path.join(scratch(), "pycache")
     e["PYTHONPATH"] = VERIF + (os.pathsep + e["PYTHONPATH"] if e.get("PYTHONPATH") else "")
+    if ALT_REPO and SRC not in e["PYTHONPATH"].split(os.pathsep):
+        e["PYTHONPATH"] = SRC + os.pathsep + e["PYTHONPATH"]
     e["VERIF_SCRATCH"] = scratch()
     e.pop("BASILISP_USE_DEV_LOGGER", None)
     if hashseed is not None:
@@ -182,7 +193,7 @@ def match_known(known: List[Dict[str, Any]], matcher: Dict[str, Any]) -> Optiona
 
 
 def replay_dir() -> str:
-    d = os.path.join(VERIF, "evidence", "replays")
+    d = os.path.join(EVIDENCE_DIR, "replays")
     os.makedirs(d, exist_ok=True)
     return d
 
@@ -191,7 +202,7 @@ def run_plain(script_path: str, timeout: float = 120, hashseed: Optional[str] = 
               args: Optional[List[str]] = None) -> subprocess.CompletedProcess:
     """Run a replay script in the repository's own interpreter: no CrossHair, no shims."""
     env = child_env(hashseed=hashseed)
-    env["PYTHONPATH"] = ""  # replays see only /repo (editable install) and the stdlib
+    env["PYTHONPATH"] = plain_pythonpath()  # replays see only /repo (editable install) and the stdlib
     try:
         return subprocess.run([PLAIN_PY, script_path] + (args or []), env=env, capture_output=True, text=True,
                               timeout=timeout)
@@ -332,8 +343,8 @@ class Report:
             "coverage": cov, "assumptions": self.assumptions, "wall_s": round(wall, 2),
             "violations": len(self.violations),
         }
-        os.makedirs(os.path.join(VERIF, "evidence"), exist_ok=True)
-        path = os.path.join(VERIF, "evidence", f"{self.prop}.json")
+        os.makedirs(EVIDENCE_DIR, exist_ok=True)
+        path = os.path.join(EVIDENCE_DIR, f"{self.prop}.json")
         with open(path + ".tmp", "w") as f:
             json.dump(ev, f, indent=1, default=str)
         os.replace(path + ".tmp", path)
